@@ -12,6 +12,9 @@ type Options struct {
 	MaxTimeAdvances int  // horizon: how many times the virtual clock may be advanced (timer fires)
 	MaxSteps        int  // scheduling steps before the execution is declared a livelock
 	Log             bool // keep a human-readable log of the execution
+	// SwitchCost is the deviation cost of choosing another than the lowest-numbered enabled thread when the running
+	// thread blocks or ends. 0 = free (classic preemption bounding); 1 = every departure from the canonical schedule counts.
+	SwitchCost int
 }
 
 // Result of one controlled execution.
@@ -46,7 +49,7 @@ func RunWith(prefix []int, o Options, body func(), onPoint func()) *Result {
 	if o.MaxSteps == 0 {
 		o.MaxSteps = 200000
 	}
-	s := &Sched{prefix: prefix, finished: make(chan struct{}), maxAdv: o.MaxTimeAdvances, maxSteps: o.MaxSteps, logOn: o.Log, closed: map[uintptr]bool{}, OnPoint: onPoint}
+	s := &Sched{prefix: prefix, finished: make(chan struct{}), maxAdv: o.MaxTimeAdvances, maxSteps: o.MaxSteps, logOn: o.Log, closed: map[uintptr]bool{}, OnPoint: onPoint, switchCost: o.SwitchCost}
 	S = s
 	s.mu.Lock()
 	t := s.startThread("main", body)
